@@ -306,6 +306,8 @@ def run_instance(eng, prover, inst, props):
                 if e[0] == "lock-exit":
                     prover.goal(f"C10/{base}/release-only-held", prefix_state(x, e), e[3] > 0, info=ctx)
 
+        if "C16" in props:
+            check_c16(eng, prover, base, x, res, s, ctx, inst.meth)
         if "C11" in props:
             check_c11(eng, prover, base, x, res, s, pre, n, rn, rid, ctx, kind, inst.meth,
                       (loads[-1][1][3][s.root.addr] if loads else pre.sel("View", rn)))
@@ -529,3 +531,25 @@ def check_c11(eng, prover, base, x, res, s, pre, n, rn, rid, ctx, kind, meth, Vl
                     z3.And(x.sel("View", rn) == VloadRoot,
                            z3.Or(x.sel("Res", rid) == R0, x.sel("Res", rid) == VloadRoot)), info=ctx)
     # (iv) data invariant: the receiver's content stays admissible
+
+
+DETACHED_RESULTS = {"__call__", "values", "items"}
+
+
+def check_c16(eng, prover, base, x, res, s, ctx, meth):
+    """C16 on one path: (1) every value stored into the receiver's container is the product of _from_base (a fresh
+    copy: contract clause C16:fresh, proved on the constructors) — never the caller's object itself;
+    (2) (), values(), items() hand out data derived from _to_base() only (plain, fresh: contract of _to_base)."""
+    for e in x.events:
+        if e[0] != "cell-write" or e[1] != s.self_.addr or e[2] not in STORE_ARG:
+            continue
+        vals = e[6] if len(e) > 6 else ()
+        idx = STORE_ARG[e[2]]
+        if idx >= len(vals):
+            continue
+        v = vals[idx]
+        converted = isinstance(v, Z) and v.meta.get("fb_src") is not None
+        prover.structural(f"C16/{base}/store-site:value-is-a-converted-copy", converted, x, dict(ctx, op=e[2]))
+    if meth in DETACHED_RESULTS and not isinstance(res, Raise):
+        ok = isinstance(res, Z) and bool(res.meta.get("plain"))
+        prover.structural(f"C16/{base}/result:derived-from-_to_base-only", ok, x, ctx)
